@@ -35,12 +35,29 @@ class CallbackProbe:
         return self.ret
 
 
+STUB_CALLS = []  # (name, args, kwargs) of every call made to a contract stub: lets effect obligations check what callers hand to callees
+
+
+def _recording(name, f):
+    import types
+    if not isinstance(f, (types.FunctionType, types.MethodType)):
+        return f
+
+    def w(*a, **k):
+        STUB_CALLS.append((name, a, dict(k)))
+        if len(STUB_CALLS) > 10000:
+            del STUB_CALLS[:5000]
+        return f(*a, **k)
+    w.__wrapped__ = f
+    return w
+
+
 @contextlib.contextmanager
 def stubbed(module, **names):
     saved = {}
     for k, v in names.items():
         saved[k] = module.__dict__.get(k, _MISSING)
-        module.__dict__[k] = v
+        module.__dict__[k] = _recording(k, v)
     try:
         yield
     finally:
